@@ -795,7 +795,28 @@ func RefactorSkeleton(seed int64, cfg *Config) *Program {
 		{Id: "skipit", Exp: &Exp{Kind: EBool, B: false}}, {Id: "skipit_other", Exp: &Exp{Kind: EBool, B: g.pct(50)}}}})
 	top.Outs = append(top.Outs, Param{Name: "gy", Type: TInt}, Param{Name: "gz", Type: TInt})
 	top.Ret = append(top.Ret, Binding{Id: "gy", Exp: ref("OUTERG", "y")}, Binding{Id: "gz", Exp: ref("OUTERG", "z")})
-	p.Pipelines = []*Pipeline{inner, gated, outerg, top}
+	// a pipeline that itself calls a pipeline (a candidate for trimming unused
+	// outputs) whose struct outputs are used only through projections: two
+	// members deep (rec.inner.a), one member deep (rec_one.label); `spare` is
+	// not used at all
+	p.Structs = append(p.Structs, &Struct{Name: "REC", Fields: []Param{{Name: "inner", Type: tsx}, {Name: "label", Type: TInt}}})
+	trec := &Type{Kind: KStruct, Name: "REC"}
+	mkrec := src(&Stage{Name: "MKREC", Ins: []Param{{Name: "v", Type: TInt}}, Outs: []Param{{Name: "rec", Type: trec}, {Name: "spare", Type: TInt}}})
+	p.Stages = append(p.Stages, mkrec)
+	leafr := &Pipeline{Name: "LEAFR", Ins: []Param{{Name: "v", Type: TInt}}, Outs: []Param{{Name: "rec", Type: trec}, {Name: "spare", Type: TInt}},
+		Calls: []*Call{{Callee: "MKREC", Binds: []Binding{{Id: "v", Exp: self("v")}}}},
+		Ret:   []Binding{{Id: "rec", Exp: ref("MKREC", "rec")}, {Id: "spare", Exp: ref("MKREC", "spare")}}}
+	midr := &Pipeline{Name: "MIDR", Ins: []Param{{Name: "v", Type: TInt}},
+		Outs:  []Param{{Name: "rec", Type: trec}, {Name: "rec_one", Type: trec}, {Name: "spare", Type: TInt}},
+		Calls: []*Call{{Callee: "LEAFR", Binds: []Binding{{Id: "v", Exp: self("v")}}}},
+		Ret:   []Binding{{Id: "rec", Exp: ref("LEAFR", "rec")}, {Id: "rec_one", Exp: ref("LEAFR", "rec")}, {Id: "spare", Exp: ref("LEAFR", "spare")}}}
+	top.Calls = append(top.Calls,
+		&Call{Callee: "MIDR", Binds: []Binding{{Id: "v", Exp: lit(int64(g.r.Intn(100)))}}},
+		&Call{Callee: "USE", Alias: "UR", Binds: []Binding{{Id: "x", Exp: ref("MIDR", "rec", "inner", "a")}}},
+		&Call{Callee: "USE", Alias: "UR1", Binds: []Binding{{Id: "x", Exp: ref("MIDR", "rec_one", "label")}}})
+	top.Outs = append(top.Outs, Param{Name: "ur", Type: TInt}, Param{Name: "ur1", Type: TInt})
+	top.Ret = append(top.Ret, Binding{Id: "ur", Exp: ref("UR", "y")}, Binding{Id: "ur1", Exp: ref("UR1", "y")})
+	p.Pipelines = []*Pipeline{inner, gated, outerg, leafr, midr, top}
 	p.Top = &Call{Callee: "TOP"}
 	return p
 }
